@@ -484,6 +484,12 @@ def gen_history(rng):
         key = rng.choice(sorted(g for g, js in groups.items() if len(js) >= 2))
         js = rng.sample(groups[key], min(len(groups[key]), rng.choice([2, 2, 3])))
         ops = [{"op": "run", "job": j, "id": f"m{n_}", "reuse": {"const": n_ > 0 and rng.random() < 0.5, "dict": n_ > 0, "driver": n_ > 0}} for n_, j in enumerate(js)]
+    if rng.random() < 0.05:
+        # process-global caches of PM6 d-orbital terms: a PM6 job on d-shell elements after another one with other d
+        # exponents (learned parameters), other elements, or after a call the library rejects half-way
+        a = rng.choice(["sp_pm6_hscl_learned", "fail_pm6_float32", "sp_pm6_h2s", "sp_pm6_hscl"])
+        b = rng.choice([j for j in ("sp_pm6_hscl", "sp_pm6_h2s", "sp_pm6_hscl_learned", "sp_pm6_h2o") if j != a])
+        ops = [{"op": "run", "job": a, "id": "pa", "reuse": {"const": False, "dict": False, "driver": False}}, {"op": "run", "job": b, "id": "pb", "reuse": {"const": rng.random() < 0.5, "dict": False, "driver": False}}]
     if rng.random() < 0.12:
         # the very first calculation of the process is a single-precision one (anything captured on first use
         # under the float32 default dtype would leak into the float64 jobs that follow)
